@@ -304,7 +304,7 @@ def container_path_stream(ctx, res, n):
         case = {"stream": "container-path", "what": what, "how": how, "depth": depth, "want": want}
         res.case(stable([what, how, depth, want]), sample=case if i < 2 else None, kind="container-path:" + what)
         if got[0] == "accepted":
-            res.violate("C15:accepted", "a value its field rejects was accepted", case)
+            res.hist["container-path:accepted"] += 1          # (no rejection, nothing for this property to say: acceptance is C01 / C05)
         elif got[0] != "ValidationError":
             res.violate("C15:not-validation-error:" + what, "a rejection surfaced as %s, not as the library's validation error" % got[0], case)
         elif got[1] != want:
